@@ -43,9 +43,10 @@ const (
 	crashErrKind      = 4  // returned error is not of a documented kind
 	crashDiagText     = 8  // "compiler bug" / "BUG" / "internal error" diagnostic
 	crashIdle         = 16 // VerifIdle imbalance after a normal / thrown outcome
+	crashOperand      = 64 // an instruction operand is absurd (e.g. enterBlock.stackSize = 2^32-1): running it would make the Go runtime die (fatal out of memory), so it is not run
 )
 
-var failTerm = "mkCase [] 32"
+var failTerm = "mkCase BNil 32"
 
 // ---------------------------------------------------------------------------------------------
 // bodies
@@ -90,7 +91,7 @@ func groupBodies(dump []goja.VerifInstr, topMode int) ([]*bodyT, map[string]*bod
 			if in.Path == "" {
 				mode = topMode
 			} else if in.Sub == "initFields" {
-				mode = 0
+				mode = 2
 			}
 			b = &bodyT{path: in.Path, mode: mode, edges: map[[3]int]bool{}}
 			by[in.Path] = b
@@ -101,31 +102,41 @@ func groupBodies(dump []goja.VerifInstr, topMode int) ([]*bodyT, map[string]*bod
 	return order, by
 }
 
+// coqBody renders one body as arguments of the B constructor: mode, code, edges.
+// Fall-through / jump edges are deduplicated per (kind, operands, pc distance, delta): the table is about
+// instruction kinds; every other edge (exception edges, returns from finally) is kept.
 func coqBody(b *bodyT, unknown map[string]bool) string {
 	var sb strings.Builder
-	fmt.Fprintf(&sb, "mkBody %d [", b.mode)
-	for i, in := range b.ins {
-		if i > 0 {
-			sb.WriteString("; ")
-		}
+	fmt.Fprintf(&sb, "%d (", b.mode)
+	for _, in := range b.ins {
 		k := kindName(in)
 		fields, ok := kindFields[k]
 		if !ok {
 			unknown[k] = true
-			sb.WriteString("(K_unknown, [])")
+			sb.WriteString("C_unknown (")
 			continue
 		}
-		sb.WriteString("(K_" + k + ", [")
-		for j, f := range fields {
-			if j > 0 {
-				sb.WriteString("; ")
+		sb.WriteString("C_" + k)
+		for _, f := range fields {
+			v := in.Ops[f]
+			if v > 4096 {
+				v = 4096 // clipped (flagged by crashOperand); keeps the unary heights of the model small
 			}
-			sb.WriteString(vh.CoqZ(in.Ops[f]))
+			if v < -(1 << 20) {
+				v = -(1 << 20)
+			}
+			if v < 0 {
+				fmt.Fprintf(&sb, " (%d)", v)
+			} else {
+				fmt.Fprintf(&sb, " %d", v)
+			}
 		}
-		sb.WriteString("])")
+		sb.WriteString(" (")
 	}
-	sb.WriteString("] [")
+	sb.WriteString("CEnd")
+	sb.WriteString(strings.Repeat(")", len(b.ins)+1))
 	var es [][3]int
+	seenClass := map[string]bool{}
 	for e := range b.edges {
 		es = append(es, e)
 	}
@@ -137,14 +148,39 @@ func coqBody(b *bodyT, unknown map[string]bool) string {
 		}
 		return false
 	})
-	for i, e := range es {
-		if i > 0 {
-			sb.WriteString("; ")
+	sb.WriteString(" (")
+	n := 0
+	for _, e := range es {
+		if e[0] < len(b.ins) {
+			in := b.ins[e[0]]
+			v, hasV := in.Ops["v"]
+			if e[1] == e[0]+1 || (hasV && e[1] == e[0]+int(v)) {
+				k := kindName(in)
+				key := fmt.Sprintf("%s|%v|%d|%d", k, opsOf(in, k), e[1]-e[0], e[2])
+				if seenClass[key] {
+					continue
+				}
+				seenClass[key] = true
+			}
 		}
-		fmt.Fprintf(&sb, "(%d, %d, %s)", e[0], e[1], vh.CoqZ(int64(e[2])))
+		if e[2] < 0 {
+			fmt.Fprintf(&sb, "E %d %d (%d) (", e[0], e[1], e[2])
+		} else {
+			fmt.Fprintf(&sb, "E %d %d %d (", e[0], e[1], e[2])
+		}
+		n++
 	}
-	sb.WriteString("]")
+	sb.WriteString("ENil")
+	sb.WriteString(strings.Repeat(")", n+1))
 	return sb.String()
+}
+
+func opsOf(in goja.VerifInstr, k string) []int64 {
+	var r []int64
+	for _, f := range kindFields[k] {
+		r = append(r, in.Ops[f])
+	}
+	return r
 }
 
 // edgesFromTrace turns the executed-instruction records into (pc -> next pc of the same activation, sp delta).
@@ -281,6 +317,20 @@ func (res *result) runProgram(p *goja.Program, topMode int, run bool, checkBUG b
 	res.ninstr += len(dump)
 	order, by := groupBodies(dump, topMode)
 	res.bodies = append(res.bodies, order...)
+	sizeField := map[string]bool{"stackSize": true, "stashSize": true, "args": true, "numArgs": true, "argsToCopy": true}
+	for _, in := range dump {
+		inTable := map[string]bool{}
+		for _, f := range kindFields[kindName(in)] {
+			inTable[f] = true
+		}
+		for f, v := range in.Ops {
+			if (v > 1<<20 || v < -(1<<20)) && (sizeField[f] || inTable[f]) {
+				res.crash |= crashOperand
+				res.note("absurd-operand:%s.%s=%d", kindName(in), f, v)
+				run = false
+			}
+		}
+	}
 	if !run {
 		return
 	}
@@ -415,11 +465,14 @@ func execCase(c Case) vh.Record {
 		res.tags = append(res.tags, "parse:"+k)
 	}
 	// Gallina term
-	var bs []string
+	var tb strings.Builder
+	tb.WriteString("mkCase (")
 	for _, b := range res.bodies {
-		bs = append(bs, coqBody(b, res.unknown))
+		tb.WriteString("B " + coqBody(b, res.unknown) + " (")
 	}
-	term := fmt.Sprintf("mkCase [%s] %d", strings.Join(bs, "; "), res.crash)
+	tb.WriteString("BNil" + strings.Repeat(")", len(res.bodies)+1))
+	fmt.Fprintf(&tb, " %d", res.crash)
+	term := tb.String()
 	for k := range res.unknown {
 		res.tags = append(res.tags, "unknown-kind:"+k)
 	}
@@ -558,7 +611,7 @@ func genNest(r *vh.Rng) string {
 
 func mkCase(kind, api string, strict bool, src string) Case {
 	c := Case{Kind: kind, API: api, Strict: strict}
-	if json.Valid([]byte(`"`+strings.ReplaceAll(strings.ReplaceAll(src, `\`, `\\`), `"`, `\"`)+`"`)) && validUTF8NoCtl(src) {
+	if validUTF8NoCtl(src) {
 		c.Src = src
 	} else {
 		c.B64 = base64.StdEncoding.EncodeToString([]byte(src))
